@@ -231,6 +231,28 @@ pub fn gen(out: &mut Out, thorough: bool) {
             l(format!("mapped nav {}", cps(&format!("[0,{},{{\"w\":{}}}]", d, d))), out);
         }
     }
+    // SCALE: flat arrays and objects of 2^8 / 2^12 (+-1, 5000; thorough 2^13, 2^16) scalars FOLLOWED by
+    // more content, so that every fragment index, offset and mapped lookup behind the big container
+    // depends on how it was skipped (chunked skipping, volume arithmetic in a narrower type)
+    {
+        let mut n = 0u64;
+        for &len in (if thorough { &[255usize, 256, 257, 4095, 4096, 4097, 5000, 8193, 65537][..] } else { &[257usize, 4097, 5000][..] }) {
+            let nums = |m: usize| (0..m).map(|i| (i % 10).to_string()).collect::<Vec<_>>().join(",");
+            let docs = [
+                format!("{{\"x\":[{}],\"y\":[{}],\"z\":{{\"k\":[1]}}}}", nums(len), nums(len - 1)),
+                format!("[[{}],[[]],{{\"a\":[{}]}},7]", nums(len), nums(len + 1)),
+                format!("{{{},\"last\":[{{}},[2]],\"k5\":null}}", (0..len).map(|i| format!("\"k{}\":{}", i, i % 7)).collect::<Vec<_>>().join(",")),
+            ];
+            for (di, d) in docs.iter().enumerate() {
+                // the wide-object document costs the executable model a minute at 4097 entries
+                if di == 2 && (len > 4097 || (len > 257 && !thorough)) { continue; }
+                l(format!("mapped nav {}", cps(d)), out);
+                n += 1;
+            }
+        }
+        out.count_n("scale_documents", n);
+        out.exhaustive.push("scale: flat arrays / objects of 2^8, 2^12 (+-1, 5000) scalars followed by further containers: every fragment index, every mapped iterator, every keyed lookup".into());
+    }
     // wide objects of scalars with ONE small container value planted at every position (an offset
     // computed from the entry count instead of the fragment volumes goes wrong behind it), alone and
     // nested: every keyed mapped lookup of every key
